@@ -118,6 +118,20 @@ pub enum Component { Prefix(u8), RootDir, CurDir, ParentDir, Normal(u8) }      /
 pub uninterp spec fn comps_of(p: PathV) -> Seq<Component>;
 pub uninterp spec fn is_abs(p: PathV) -> bool;
 pub open spec fn bad_comp(c: Component) -> bool { c is ParentDir || c is RootDir || c is Prefix }
+// the hub's control directory: a request path whose first component (after leading `.`) is `.copia`
+pub uninterp spec fn is_control(c: Component) -> bool;       // Normal(".copia")
+pub open spec fn control_rel(p: PathV) -> bool {
+    exists|i: int| 0 <= i < comps_of(p).len() && is_control(#[trigger] comps_of(p)[i]) && forall|j: int| 0 <= j < i ==> comps_of(p)[j] is CurDir
+}
+#[verifier::external_body] pub fn comp_is_control(c: &Component) -> (r: bool) ensures r == is_control(*c) { unimplemented!() }   // `c.as_os_str() == ".copia"`
+// grammar facts (A): a relative path that does not start in the control directory never names the lock file, nor does
+// such a path extended by a staging or conflict suffix; the lock file's own name is not a staging name
+pub uninterp spec fn is_conflict_sfx(s: PathV) -> bool;
+pub broadcast axiom fn ax_not_lockfile(root: PathV, x: PathV)
+    requires rel_ok(x), !control_rel(x)
+    ensures #[trigger] joinv(root, x) != lockfile(root),
+        forall|s: PathV| is_conflict_sfx(s) ==> #[trigger] (joinv(root, x) + s) != lockfile(root);
+pub broadcast axiom fn ax_lock_not_staging(root: PathV) ensures !is_staging(#[trigger] lockfile(root));
 // the grammar fact that makes the guard sufficient: a non-absolute path none of whose components is `..`/root/prefix is rel_ok
 pub broadcast axiom fn ax_grammar(p: PathV)
     requires !is_abs(p), forall|i: int| 0 <= i < comps_of(p).len() ==> !bad_comp(#[trigger] comps_of(p)[i])
@@ -127,21 +141,29 @@ pub broadcast axiom fn ax_grammar(p: PathV)
 #[verifier::external_body] pub fn path_components(p: &Path) -> (r: Vec<Component>) ensures r@ == comps_of(pv(p)) { unimplemented!() }
 #[verifier::external_body] pub fn comp_is_bad(c: &Component) -> (r: bool) ensures r == bad_comp(*c) { unimplemented!() }
 
+pub open spec fn safe_join_none(root: PathV, rel: Seq<char>) -> bool {
+    is_abs(strv(rel)) || (exists|i: int| 0 <= i < comps_of(strv(rel)).len() && bad_comp(#[trigger] comps_of(strv(rel))[i])) || control_rel(strv(rel))
+}
 //@extract file=src/bin/copia/serve.rs fn=safe_join
 //@ret r
 //@ensures
     // C11: Some only for a relative request path without `..`/root/prefix components, and then exactly root joined with it
     r is Some ==> pbv(&r->Some_0) == joinv(pv(root), strv(rel@)) && rel_ok(strv(rel@)) && inside(pv(root), pbv(&r->Some_0)),
-    r is None <==> is_abs(strv(rel@)) || exists|i: int| 0 <= i < comps_of(strv(rel@)).len() && bad_comp(#[trigger] comps_of(strv(rel@))[i]),
+    r is None <==> safe_join_none(pv(root), rel@),
+    r is Some ==> !control_rel(strv(rel@)),
 //@replace /Path::new\(rel\)/ => path_new(rel)
 //@replace /p\.is_absolute\(\)/ => path_is_absolute(p)
 //@replace /for c in p\.components\(\)(?= \{)/ => for c in cit: &cv
+//@replace? /c\.as_os_str\(\) == "\.copia"/ => comp_is_control(c)
 //@at before /for c in p\.components\(\)/
     let cv = path_components(p);
 //@loop 0 invariant
         cit.seq().len() == cv@.len(), forall|j: int| 0 <= j < cit.seq().len() ==> *(#[trigger] cit.seq()[j]) == cv@[j],
         cv@ == comps_of(strv(rel@)),
         forall|j: int| 0 <= j < cit.index() ==> !bad_comp(#[trigger] cv@[j]),
+//@loop? 0 invariant
+        first <==> (forall|j: int| 0 <= j < cit.index() ==> cv@[j] is CurDir),
+        forall|i: int| 0 <= i < cit.index() ==> !(is_control(#[trigger] cv@[i]) && forall|j: int| 0 <= j < i ==> cv@[j] is CurDir),
 //@at loop 0 entry
         assert(*c == cv@[cit.index() as int]);
 //@at end
@@ -192,7 +214,7 @@ pub fn short_hash(h: &Hash) -> (r: String) ensures r@ == short_hex(h@) { unimple
 pub uninterp spec fn conflict_sfx(hex: Seq<char>) -> Seq<char>;
 pub uninterp spec fn conflict_sfx_arg(s: Seq<char>) -> Seq<char>;
 #[verifier::external_body]
-pub fn vfmt_conflict(hex: String) -> (r: String) ensures r@ == conflict_sfx(hex@), no_slash(strv(r@)), !ends_with_tmp(strv(r@)) { unimplemented!() }
+pub fn vfmt_conflict(hex: String) -> (r: String) ensures r@ == conflict_sfx(hex@), no_slash(strv(r@)), !ends_with_tmp(strv(r@)), is_conflict_sfx(strv(r@)) { unimplemented!() }
 pub uninterp spec fn ends_with_tmp(s: PathV) -> bool;
 // a name that ends in a conflict suffix is not a staging name (the suffix ends in 12 hex digits)
 pub broadcast axiom fn ax_conflict_not_staging(x: PathV, s: PathV) requires !ends_with_tmp(s), s.len() > 0 ensures !#[trigger] is_staging(x + s);
@@ -204,7 +226,7 @@ pub broadcast axiom fn ax_strv_nonempty(s: Seq<char>) ensures #[trigger] strv(s)
 //@param+
     Tracked(fs): Tracked<&mut World>
 //@requires
-    old(fs).root == pv(root), !old(fs).lock, inside(pv(root), pv(lockdir)), rel_ok(strv("commit.lock"@)),
+    old(fs).root == pv(root), !old(fs).lock, pv(lockdir) == lockdir_of(pv(root)), inside(pv(root), pv(lockdir)), rel_ok(strv("commit.lock"@)),
     !is_staging(joinv(pv(root), strv(path@))),     // domain: request paths are not reserved staging names
 //@ensures
     final(fs).root == old(fs).root, final(fs).private == old(fs).private,
@@ -222,7 +244,7 @@ pub broadcast axiom fn ax_strv_nonempty(s: Seq<char>) ensures #[trigger] strv(s)
 //@replace? /std::fs::remove_file\(((?:[^()]|\((?:[^()]|\([^()]*\))*\))*)\)/ => vfs_remove_file(\1, Tracked(fs)) #all
 //@replace /"bad path"\.into\(\)/ => str_into("bad path") #all
 //@at entry
-    broadcast use asp_path, asp_pathbuf, asp_pathbuf_val, asp_str;
+    broadcast use asp_path, asp_pathbuf, asp_pathbuf_val, asp_str, ax_not_lockfile, ax_lock_not_staging;
     let ghost w0 = *fs;
 //@at after /let current = current_hash\(&dst\);/
         proof {
@@ -274,9 +296,7 @@ pub open spec fn put_reply_ok(m: Response, o: World, n: World, d: PathV, expecte
         _ => false,
     }
 }
-pub open spec fn safe_join_none(root: PathV, rel: Seq<char>) -> bool {
-    is_abs(strv(rel)) || exists|i: int| 0 <= i < comps_of(strv(rel)).len() && bad_comp(#[trigger] comps_of(strv(rel))[i])
-}
+
 
 // no live (non-staging) path differs between new and old, outside s
 pub open spec fn live_same(new: Map<PathV, FileS>, old: Map<PathV, FileS>, s: Set<PathV>) -> bool {
@@ -305,7 +325,7 @@ pub fn drain_content<R: Read>(r: &mut R, len: u64) -> (res: std::io::Result<u64>
 //@param+
     Tracked(fs): Tracked<&mut World>
 //@requires
-    old(fs).root == pv(root), !old(fs).lock, inside(pv(root), pv(lockdir)), rel_ok(strv("commit.lock"@)),
+    old(fs).root == pv(root), !old(fs).lock, pv(lockdir) == lockdir_of(pv(root)), inside(pv(root), pv(lockdir)), rel_ok(strv("commit.lock"@)),
     !is_staging(joinv(pv(root), strv(path@))),     // domain: request paths are not reserved staging names
 //@ensures
     final(fs).root == old(fs).root,
@@ -332,7 +352,7 @@ pub fn drain_content<R: Read>(r: &mut R, len: u64) -> (res: std::io::Result<u64>
 //@replace? /"content hash mismatch"\.into\(\)/ => str_into("content hash mismatch")
 //@replace? /\*hasher\.finalize\(\)\.as_bytes\(\) != hash/ => hash_ne(hasher.finalize().as_bytes(), &hash)
 //@at entry
-    broadcast use asp_path, asp_pathbuf, asp_pathbuf_val, asp_str, asp_string;
+    broadcast use asp_path, asp_pathbuf, asp_pathbuf_val, asp_str, asp_string, ax_not_lockfile, ax_lock_not_staging;
     let ghost w0 = *fs;
     let ghost d = joinv(pv(root), strv(path@));
 //@at after /let tmp = tmp_of\(&dst\);/
@@ -566,7 +586,7 @@ pub broadcast axiom fn ax_rel_literals() ensures #[trigger] rel_ok(strv(".copia"
 //@at before /while let Some\(req\)/
     proof { trace_magic(tr); }
 //@loop 0 invariant
-        fs.root == pv(root), !fs.lock, inside(pv(root), pbv(&lockdir)), w0 == *old(fs), w0.root == pv(root), tr.magic_ok,
+        fs.root == pv(root), !fs.lock, inside(pv(root), pbv(&lockdir)), pbv(&lockdir) == lockdir_of(pv(root)), w0 == *old(fs), w0.root == pv(root), tr.magic_ok,
         tr.frames == 0 ==> fs.files == w0.files && fs.log.len() == w0.log.len() + 2 && (forall|i: int| w0.log.len() <= i < fs.log.len() ==> #[trigger] fs.log[i] is Mkdir),
 //@at loop 0 entry
         broadcast use asp_path, asp_pathbuf, asp_pathbuf_val, asp_str, ax_rel_literals;
